@@ -68,3 +68,166 @@ def rule_w1(chk, prog, files, rule="W1"):
                         "the byte count returned by %s is discarded (%s): a short write silently drops or "
                         "re-splits the remaining bytes; use write_all or loop on the count" % (short(c.path), how))
     return n
+
+
+# --------------------------------------------------------------------------- F1 / H1
+
+WRITE_FNS = re.compile(r"^tokio::io::util::async_write_ext::AsyncWriteExt::(write|write_all|write_buf|write_all_buf|write_u8|write_u16|write_u32|write_u64|write_i8|write_vectored)$")
+FLUSH_FNS = re.compile(r"^tokio::io::util::async_write_ext::AsyncWriteExt::(flush|shutdown)$")
+RESIDUAL = re.compile(r"core::ops::try_trait::FromResidual")
+RECV_FNS = re.compile(r"^tokio::sync::mpsc::(bounded|unbounded)::(Receiver|UnboundedReceiver)::<T>::recv$")
+
+
+def writer_functions(prog):
+    """local coroutine/function bodies that write to a stream"""
+    out = []
+    for f in prog.fns.values():
+        if f.crate != "redproxy_rs":
+            continue
+        ws = [c for c in f.calls if WRITE_FNS.match(c.path or "")]
+        if ws:
+            out.append((f, ws))
+    return out
+
+
+def f1_check(prog, f, extra_writers=()):
+    """every path from a buffered write to a normal exit passes flush()/shutdown().
+    Returns (ok, detail, kind) kind in {'flushes','partial','fails'}"""
+    ws = [c for c in f.calls if WRITE_FNS.match(c.path or "")]
+    # calls to local partial writers count as writes too
+    for c in f.calls:
+        lk = c.local_key()
+        if lk in extra_writers:
+            ws.append(c)
+    fl = [c.bb for c in f.calls if FLUSH_FNS.match(c.path or "")]
+    resid = [c.bb for c in f.calls if RESIDUAL.search(c.path or "")]
+    exits = set(f.returns()) | set(c.bb for c in f.calls if RECV_FNS.match(c.path or ""))
+    bad = []
+    for w in ws:
+        if w.target is None:
+            continue
+        r = f.reach_from([w.target], avoid=set(fl) | set(resid))
+        hit = r & exits
+        if hit:
+            bad.append(w)
+    if not bad:
+        return True, "every write is followed by flush()/shutdown() on all non-error paths", "flushes"
+    return False, "write at line %s can reach a normal exit without flush" % bad[0].line, "fails"
+
+
+def rule_f1(chk, prog, rule="F1", files=None):
+    """F1 with one level of caller summary for partial writers"""
+    wf = writer_functions(prog)
+    status = {}
+    for f, ws in wf:
+        ok, detail, kind = f1_check(prog, f)
+        status[f.key] = (ok, detail)
+    # partial writers: every local caller must flush after the call
+    n = 0
+    for f, ws in wf:
+        if files and not any(f.file.endswith(x) for x in files):
+            continue
+        n += 1
+        ok, detail = status[f.key]
+        desc = "%s flushes what it writes" % f.path
+        if ok:
+            chk.instance(rule, "%s:%s" % (f.file, f.line), desc, True, detail)
+            continue
+        # is it a partial writer?  find callers of the enclosing fn
+        top = prog.top_parent(f)
+        callers = []
+        for g in prog.fns.values():
+            for c in g.calls:
+                if c.local_key() == top.key:
+                    callers.append((g, c))
+        if callers:
+            allok = True
+            why = ""
+            for g, c in callers:
+                fl = [x.bb for x in g.calls if FLUSH_FNS.match(x.path or "")]
+                resid = [x.bb for x in g.calls if RESIDUAL.search(x.path or "")]
+                if c.target is None:
+                    continue
+                r = g.reach_from([c.target], avoid=set(fl) | set(resid))
+                if r & set(g.returns()):
+                    # the caller itself may be a partial writer one more level up: accept if ITS callers flush
+                    tg = prog.top_parent(g)
+                    up = [(h, cc) for h in prog.fns.values() for cc in h.calls if cc.local_key() == tg.key]
+                    ok2 = bool(up)
+                    for h, cc in up:
+                        fl2 = [x.bb for x in h.calls if FLUSH_FNS.match(x.path or "")]
+                        resid2 = [x.bb for x in h.calls if RESIDUAL.search(x.path or "")]
+                        if cc.target is not None and (h.reach_from([cc.target], avoid=set(fl2) | set(resid2)) & set(h.returns())):
+                            ok2 = False
+                    if not ok2:
+                        allok = False
+                        why = "caller %s does not flush after calling it" % g.path
+            if allok:
+                chk.instance(rule, "%s:%s" % (f.file, f.line), desc, True, "partial writer: every caller flushes after the call")
+                continue
+            detail = detail + "; " + why
+        chk.instance(rule, "%s:%s" % (f.file, f.line), desc, False, detail)
+        chk.finding(rule, f.key, "flush", "", "%s:%s" % (f.file, f.line),
+                    "%s writes into a buffered stream but %s: the bytes can stay in the BufWriter and never reach the peer "
+                    "(or arrive after later tunnel bytes)" % (f.path, detail))
+    return n
+
+
+def rule_h1(chk, prog, rule="H1"):
+    """read-ahead of the BufReader is handed over before the buffered stream is unwrapped"""
+    into = prog.callers_of(r"^tokio::io::util::buf_reader::BufReader::<R>::into_inner$")
+    into = [c for c in into if c.fn.crate == "redproxy_rs"]
+    n = 0
+    if not into:
+        chk.anchor_missing(rule, "BufReader::into_inner call sites")
+        return 0
+    for c in into:
+        n += 1
+        f = c.fn
+        drains = [d for d in f.calls if re.search(r"copy::drain_buffers$", d.name or "")]
+        # both directions: argument roots (from, to) and (to, from)
+        pairs = set()
+        for d in drains:
+            a = f.root_name(op_base(d.args[0]))
+            b = f.root_name(op_base(d.args[1]))
+            pairs.add((a, b))
+        both = any((b, a) in pairs for (a, b) in pairs if a != b)
+        dom = all(f.dominates(d.bb, c.bb) for d in drains) and len(drains) >= 2
+        ok = both and dom
+        chk.instance(rule, c.where(), "into_inner in %s is preceded by drain_buffers in both directions" % f.path, ok,
+                     "drains %s dominate the unwrap" % sorted(pairs))
+        if not ok:
+            chk.finding(rule, f.key, "into_inner", "", c.where(),
+                        "the buffered stream is unwrapped in %s without first forwarding the BufReader's read-ahead in both directions "
+                        "(found drain_buffers pairs %s): bytes pipelined behind the handshake are lost" % (f.path, sorted(pairs)))
+    # shape of drain_buffers itself
+    ds = prog.find(r"^copy::drain_buffers$", "redproxy_rs")
+    if len(ds) != 1:
+        chk.anchor_missing(rule, "copy::drain_buffers")
+        return n
+    d = prog.body_of(ds[0])
+    buf = [c for c in d.calls if re.search(r"BufReader::<R>::buffer$", c.path or "")]
+    wa = [c for c in d.calls if re.search(r"AsyncWriteExt::write_all$", c.path or "")]
+    fl = [c for c in d.calls if re.search(r"AsyncWriteExt::flush$", c.path or "")]
+    ok = bool(buf and wa and fl)
+    why = ""
+    if ok:
+        # buffer() is taken from arg `from`, write_all/flush go to `to`, and the slice written is the buffer
+        from .panics import resolve_place, pretty_sig
+        src = pretty_sig(resolve_place(d, op_base(buf[0].args[0]))[0] or "")
+        dst_w = pretty_sig(resolve_place(d, op_base(wa[0].args[0]))[0] or "")
+        dst_f = pretty_sig(resolve_place(d, op_base(fl[0].args[0]))[0] or "")
+        data = d.trace(op_base(wa[0].args[1]))
+        from_buf = any(k == "call" and info is buf[0] for k, info in data) or (d.root_name(op_base(wa[0].args[1])) == d.root_name(buf[0].dest[0]))
+        ok = src != dst_w and dst_w == dst_f and from_buf
+        why = "buffer(%s) -> write_all(%s) -> flush(%s)" % (src, dst_w, dst_f)
+        # flush on every non-error path to return
+        resid = [c.bb for c in d.calls if RESIDUAL.search(c.path or "")]
+        if d.reach_from([0], avoid=[x.bb for x in fl] + resid) & set(d.returns()):
+            ok = False
+            why += "; a path returns without flush"
+    chk.instance(rule, "%s:%s" % (d.file, d.line), "drain_buffers writes from.buffer() to `to` and flushes it", ok, why)
+    if not ok:
+        chk.finding(rule, d.key, "drain-shape", "", "%s:%s" % (d.file, d.line),
+                    "drain_buffers no longer forwards the reader's buffered bytes to the other side and flushes them (%s)" % why)
+    return n
